@@ -62,7 +62,8 @@ Record rcfg := mkCfg {
   c_prefix_subnets : list subnet;
   c_exclusions : list subnet;
   c_rmin : N; c_rprefix : N;  (* override iff the draw from 0..9999 is below this *)
-  c_send_ok : bool
+  c_send_ok : bool;
+  c_other_subnets : list subnet   (* override subnets configured for other transports: validated, never used *)
 }.
 
 Record env := mkEnv {
@@ -98,10 +99,10 @@ Definition rand_int (max : N) (chunks : list bytes) : draw (N * list bytes) :=
 
 Definition two32 : N := 4294967296.
 
-(* uint32(1 << uint32(bits-ones)) *)
-Definition subnet_size (s : subnet) : N := 2 ^ (32 - s_ones s) mod two32.
+(* uint64(1) << uint(bits-ones): the number of addresses of the subnet *)
+Definition subnet_size (s : subnet) : N := 2 ^ (32 - s_ones s).
 
-(* getRandUint32IPv4 / randomInt: a random address inside the subnet (uint32 arithmetic) *)
+(* getRandUint32IPv4: a random address inside the subnet (uint32 arithmetic) *)
 Definition rand_host (s : subnet) (chunks : list bytes) : draw N :=
   match rand_int (subnet_size s) chunks with
   | DOk (r, _) => DOk ((s_base s + r) mod two32)
@@ -276,6 +277,83 @@ Definition register_uni (cfg : rcfg) (q : req) (client_addr : option bytes) (met
 Definition clear_forged (q : req) : req :=
   mkReq (q_secret q) (q_payload q) None None None (q_source q) (q_addr q).
 
+(* ---------------- the front ends ----------------
+   pkg/regserver/apiregserver (register, registerBidirectional) and pkg/regserver/dnsregserver
+   (processRequest) decode the client's bytes into the wrapper, call the processor and encode what
+   it returned.  The API front end replaces the payload's decoy-list generation by the server's
+   when the client's is older and, after the processor has returned (and published), attaches its
+   ClientConf to the response. *)
+Definition payload_gen (q : req) : N := match q_payload q with Some c => p_gen c | None => 0 end.
+
+Definition set_gen (q : req) (g : N) : req :=
+  match q_payload q with
+  | Some c => mkReq (q_secret q)
+                    (Some (mkC2S (p_v4 c) (p_v6 c) (p_transport c) (p_params c) (p_disable_ov c) (p_libver c) g))
+                    (q_forged_resp q) (q_forged_bytes q) (q_forged_sig q) (q_source q) (q_addr q)
+  | None => q
+  end.
+
+Definition source_api : N := 2.
+Definition source_bdapi : N := 4.
+Definition source_dns : N := 5.
+Definition source_bddns : N := 6.
+
+Record fe_out := mkFE {
+  fe_status : N;             (* HTTP status (API) / 1 = success, 0 = failure (DNS) *)
+  fe_resp : option resp;     (* the registration response in the bytes the client receives *)
+  fe_cc : option N;          (* API: generation of the ClientConf attached to it; DNS: Some 1 iff clientconf_outdated *)
+  fe_fwd : option fwd
+}.
+
+Definition api_request (server_gen : option N) (q : req) : req * option N :=
+  match server_gen with
+  | Some g => if payload_gen q <? g then (set_gen q g, Some g) else (q, None)
+  | None => (q, None)
+  end.
+
+(* None = the handler panics *)
+Definition api_bd (cfg : rcfg) (server_gen : option N) (body_len : N) (q : req) (remote : option bytes) (e : env)
+  : option fe_out :=
+  match remote with
+  | None => Some (mkFE 400 None None None)
+  | Some addr =>
+    if body_len <? 33 then Some (mkFE 400 None None None)
+    else let '(q', cc) := api_request server_gen q in
+         match register_bd cfg q' (Some addr) source_bdapi e with
+         | Ok (rs, w) => Some (mkFE 200 (Some rs) cc (Some w))
+         | Err ENoC2S => Some (mkFE 400 None None None)
+         | Err _ => Some (mkFE 500 None None None)
+         | Panic => None
+         end
+  end.
+
+Definition api_uni (cfg : rcfg) (body_len : N) (q : req) (remote : option bytes) : option fe_out :=
+  match remote with
+  | None => Some (mkFE 400 None None None)
+  | Some addr =>
+    if body_len <? 33 then Some (mkFE 400 None None None)
+    else match register_uni cfg q (Some addr) source_api with
+         | Ok w => Some (mkFE 204 None None (Some w))
+         | Err _ => Some (mkFE 500 None None None)
+         | Panic => None
+         end
+  end.
+
+Definition dns_req (cfg : rcfg) (latest_gen : N) (q : req) (e : env) : option fe_out :=
+  let od := if payload_gen q <? latest_gen then Some 1 else Some 0 in
+  if q_source q =? source_bddns then
+    match register_bd cfg q None source_bddns e with
+    | Ok (rs, w) => Some (mkFE 1 (Some rs) od (Some w))
+    | Err _ => Some (mkFE 0 None od None)
+    | Panic => None
+    end
+  else
+    match register_uni cfg q None source_dns with
+    | Ok w => Some (mkFE 1 None od (Some w))
+    | Err _ => Some (mkFE 0 None od None)
+    | Panic => None
+    end.
+
 (* ---------------- the station ---------------- *)
 Record scfg := mkSt {
   st_v4 : bool; st_v6 : bool;          (* EnableIPv4 / EnableIPv6 *)
@@ -369,11 +447,16 @@ Definition station (sc : scfg) (f : fwd) : option (list sview) :=
 
 (* ---------------- configuration well-formedness ---------------- *)
 Definition wf_subnet (s : subnet) : bool :=
-  s_v4net s && (1 <=? s_ones s) && (s_ones s <=? 32) && (s_base s <? two32) &&
+  s_v4net s && (s_ones s <=? 32) && (s_base s <? two32) &&
   (s_base s mod 2 ^ (32 - s_ones s) =? 0) && (s_port s <? 65536).
 
 Definition wf_cfg (cfg : rcfg) : bool :=
   forallb wf_subnet (c_min_subnets cfg) && forallb wf_subnet (c_prefix_subnets cfg).
+
+(* the constructors (newRegProcessor / NewRegProcessorNoAuth) refuse a configuration with an
+   override subnet whose port does not fit in 16 bits *)
+Definition cfg_accepted (cfg : rcfg) : bool :=
+  forallb (fun s => s_port s <? 65536) (c_min_subnets cfg ++ c_prefix_subnets cfg ++ c_other_subnets cfg).
 
 Definition in_subnet (s : subnet) (a : N) : Prop :=
   s_base s <= a /\ a < s_base s + 2 ^ (32 - s_ones s).
